@@ -90,6 +90,7 @@ def gen_case(seed):
     case["observer"] = rnd.random() < 0.5
     case["fs_delay"] = rnd.choice([None, [0.0001, 0.002]])
     case["short_reads"] = rnd.random() < 0.5
+    case["backend"] = rnd.choice(["memory", "memory", "memory", "memory", "pathio", "asyncpathio"])
     return case
 
 
@@ -140,13 +141,39 @@ def run_case(case):
         users = [{"login": None, "read_speed_limit": rate, "write_speed_limit_per_connection": rate}]
     elif thr == "client":
         ckw = {"read_speed_limit": rate, "write_speed_limit": rate}
+    backend = case.get("backend", "memory")
+    scratch = None
+    if backend != "memory":
+        import os
+        import tempfile
+
+        from checks import c18
+
+        scratch = tempfile.mkdtemp(prefix="c01_", dir=c18.SCRATCH_ROOT)
+        os.makedirs(os.path.join(scratch, "d"))
+        for u in users:
+            u["base_path"] = scratch
     srv["users"] = users
-    sc = {"seed": case["seed"], "server": srv, "net": net, "fs": {"delay": case.get("fs_delay"), "short_reads": case.get("short_reads", False), "tree": {"/d": None}}}
+    sc = {"seed": case["seed"], "server": srv, "net": net, "fs": {"delay": case.get("fs_delay"), "short_reads": case.get("short_reads", False), "tree": {"/d": None}, "backend": backend}}
     viol = []
     info = {"transfers": 0, "bytes": 0, "observer_calls": 0}
     world = scenario.setup_world(sc, max_steps=3_000_000)
+    try:
+        return _run_transfers(case, world, sc, net, b, ckw, viol, info, scratch)
+    finally:
+        if scratch:
+            import shutil
+
+            shutil.rmtree(scratch, ignore_errors=True)
+
+
+def _run_transfers(case, world, sc, net, b, ckw, viol, info, scratch):
     with world:
         server = scenario.finish_setup(world, sc)
+        if scratch:
+            from checks import c18
+
+            world.snapshot = lambda: c18.fs_snapshot(scratch)
         model = {}
         subject_of = lambda op: f"{op['kind']}"
 
@@ -273,7 +300,7 @@ def run_case(case):
             "steps": world.loop.steps,
             "outcome": world.outcome,
             "counters": {"transfers": info["transfers"], "bytes_moved": info["bytes"], "probe.observer_calls_during_transfers": info["observer_calls"], "probe.short_reads": int(bool(case.get("short_reads"))), "probe.throttled": int(bool(case.get("throttle"))), "probe.restart_offset_ops": sum(1 for o in case["ops"] if o.get("offset"))},
-            "groups": {"block_size": {str(b): 1}, "seg_mode": {net["seg_mode"]: 1}},
+            "groups": {"block_size": {str(b): 1}, "seg_mode": {net["seg_mode"]: 1}, "backend": {case.get("backend", "memory"): 1}},
             "violations": _dedupe(viol),
         }
         if case.get("want_sample"):
@@ -455,22 +482,22 @@ def main(argv=None):
     deadline = time.time() + (a.budget or (75 if quick else 1500))
     n = 2500 if quick else 300000
     with common.Pool() as pool:
-        cases = []
-        for i in range(n):
-            cases.append(gen_case(a.seed * 1_000_000 + i))
-            if i % 5 == 0:
-                cases.append(gen_reset_case(a.seed * 1_000_000 + i))
-        for c in cases[:3]:
-            c["want_sample"] = True
+        def gen():
+            for i in range(n):
+                yield gen_case(a.seed * 1_000_000 + i)
+                if i % 5 == 0:
+                    yield gen_reset_case(a.seed * 1_000_000 + i)
+
+        cases = common.with_samples(gen(), 3)
         for case, res in pool.map(run_case, cases, deadline=deadline, chunksize=4):
             ev.add_run(res)
             for v in res["violations"]:
                 rep.add(case, v)
-        ev.extra["planned"] = len(cases)
+        ev.extra["planned"] = n + n // 5
         ev.assumptions = [
             "REST+STOR/APPE on a missing file is backend-dependent (see C18) and is not generated",
             "a second session downloads / stats / lists only after the completion reply; a third session stats and lists (never downloads) the same paths during the transfers",
-            "backend content is read through a snapshot of the MemoryPathIO state, not through FTP",
+            "backend content is read through a snapshot of the backend (MemoryPathIO state or the scratch directory), not through FTP",
         ]
         code = rep.finish(minimise=minimise, confirm=confirm)
     ev.write()
